@@ -91,6 +91,14 @@ theorem C05_v1_fact_destination_node :
     destinationRunConds = ["err != nil", "err != nil", "err != nil || msg == nil", "msg.filtered", "err != nil",
       "err != nil", "err != nil"] := by decide
 
+/-- `DestinationNode.Run`'s deferred drain: the destination is asked to stop (`Stop(lastPosition)`,
+which makes a batching destination flush and acknowledge what it buffered) BEFORE the node waits
+for its open messages, and it is torn down only after that wait — the order the graceful-stop
+drain (C06) depends on: waiting first would wait for acks that only `Stop` releases. -/
+theorem C06_v1_fact_destination_drain_order :
+    destinationRunCalls = ["Destination.Open", "Destination.Stop", "openMsgTracker.Wait", "Destination.Teardown",
+      "Destination.Write", "openMsgTracker.Add"] := by decide
+
 /-- the condition merge of `RunnableProcessor.Process` (fix_F4): guards of `condMerge` /
 `mergeLoop`. -/
 theorem C09_v1_fact_cond_merge :
